@@ -182,6 +182,33 @@ theorem set_contains_v6_iff (es : List Entry) (k : Nat) (hok : ∀ e ∈ es, Ent
 /-- An IPv4-mapped IPv6 source is answered as the IPv4 address it carries. -/
 theorem mapped_counts_as_v4 (s : Set) (k : Nat) : s.contains Fam.mapped k = s.contains Fam.v4 k := rfl
 
+/-- **Entries never cross families.** A list that holds no IPv4 entry admits no
+IPv4 source and no IPv4-mapped source, whatever IPv6 entries it holds — in
+particular an entry written in mapped form, `::ffff:a.b.c.d/N`, is an IPv6 prefix
+and never stands for the IPv4 network `a.b.c.d/(N-96)`; and a list that holds no
+IPv6 entry admits no IPv6 source. -/
+theorem entries_never_cross_families (es : List Entry) (k : Nat) (hok : ∀ e ∈ es, EntryOk e) :
+    ((∀ a b, some (Fam.v4, a, b) ∉ es) →
+        (Set.new es).contains Fam.v4 k = false ∧ (Set.new es).contains Fam.mapped k = false) ∧
+    ((∀ a b, some (Fam.v6, a, b) ∉ es) → (Set.new es).contains Fam.v6 k = false) := by
+  refine ⟨fun h => ?_, fun h => ?_⟩
+  · have h4 : (Set.new es).contains Fam.v4 k = false := by
+      cases hc : (Set.new es).contains Fam.v4 k with
+      | false => rfl
+      | true =>
+        obtain ⟨a, b, hm, _⟩ := (set_contains_v4_iff es k hok).mp hc
+        exact absurd hm (h a b)
+    exact ⟨h4, by rw [mapped_counts_as_v4]; exact h4⟩
+  · cases hc : (Set.new es).contains Fam.v6 k with
+    | false => rfl
+    | true =>
+      obtain ⟨a, b, hm, _⟩ := (set_contains_v6_iff es k hok).mp hc
+      exact absurd hm (h a b)
+
+-- non-vacuity: the mapped-form entry ::ffff:192.168.1.0/120 and the source 192.168.1.5
+example : (Set.new [some (Fam.v6, 0xffffc0a80100, 120)]).contains Fam.v4 0xc0a80105 = false ∧
+    (Set.new [some (Fam.v6, 0xffffc0a80100, 120)]).contains Fam.mapped 0xc0a80105 = false := by decide
+
 /-- An unparsable entry is ignored rather than widening access: adding it
 anywhere in the list changes no answer. -/
 theorem bad_entry_never_widens (es₁ es₂ : List Entry) (f : Fam) (k : Nat) :
